@@ -375,6 +375,10 @@ func (fr *FuncRun) applyContract(f *Frame, st *State, fc *FuncContract, callee *
 		t := fr.evalClause(ctx, r)
 		fr.assertOb(st, "pre", fmt.Sprintf("%s:%d", name, i+1), t, pos, "precondition of "+fc.Name+": "+r.Text)
 	}
+	if fr.eng.checkGuards && !fc.Extern && callee != nil && !mentionsHeld(fc) {
+		hh := fr.w.HeldHeap()
+		fr.assertOb(st, "pre", name+":nolocks", fmt.Sprintf("(= %s ((as const (Array Int Int)) 0))", fr.heapCur(st, hh)), pos, "lock discipline: "+fc.Name+" declares no lock precondition and is therefore called with no lock held")
+	}
 	// frame
 	{
 		wholeH := map[string]bool{}
@@ -1133,6 +1137,13 @@ func (e *Engine) VerifyFunction(fn *ssa.Function) *FuncResult {
 		reqs = append(reqs, t)
 		fr.assume(st, t)
 	}
+	if e.checkGuards && !mentionsHeld(f.contract) {
+		// lock discipline default: a function whose contract says nothing about locks is entered with no lock held
+		// by the calling goroutine (asserted at every call under contract, see applyContract)
+		hh := fr.w.HeldHeap()
+		fr.emit(fmt.Sprintf("(assert (= %s ((as const (Array Int Int)) 0)))", fr.heapCur(st, hh)))
+		fr.assumed["lock discipline: entered with no lock held by the calling goroutine (no lock precondition declared; asserted at calls under contract)"] = true
+	}
 	f.entry = st.clone()
 	if len(reqs) > 0 {
 		// vacuity: the preconditions must be satisfiable
@@ -1275,4 +1286,20 @@ func (fr *FuncRun) refBound(v Val, t types.Type) {
 	case *types.Slice:
 		fr.emit(fmt.Sprintf("(assert (<= (fa_root (s-arr %s)) AllocBase))", v.T))
 	}
+}
+
+// mentionsHeld: the contract states its own lock preconditions.
+func mentionsHeld(fc *FuncContract) bool {
+	if fc == nil {
+		return false
+	}
+	if fc.LockFree {
+		return true
+	}
+	for _, r := range fc.Requires {
+		if strings.Contains(r.Text, "held(") || strings.Contains(r.Text, "nolocks(") {
+			return true
+		}
+	}
+	return false
 }
